@@ -192,6 +192,11 @@ func recordArtifacts(paths []string, hashAlgorithms []string, gitignorePatterns 
 					if evalErr != nil {
 						return evalErr
 					}
+					// The target has been recorded completely. Only symlinks
+					// that are currently being followed indicate a cycle when
+					// they are met again; the same symlink may legitimately
+					// be reached once more via another route.
+					visitedSymlinks.Remove(path)
 					for key, value := range evalArtifacts {
 						if targetIsDir {
 							symlinkPath := filepath.Join(path, strings.TrimPrefix(key, evalSym))
